@@ -94,7 +94,10 @@ NOISE_TOKENS = (b"x", b"\n", b"\r\n", b"SSH-", b"SSH-2.0-", b"\r", b" ", b"-", b
 
 FILLER = random.Random(35).randbytes(60000)     # fixed, incompressible keep-talking traffic for the tamper family
 
-# dev-time: VERIF_C35_AVOID=1 keeps every run away from the banner-line finding so that mutant runs see past it
+# dev-time: VERIF_C35_AVOID=1 keeps every run away from the preconditions of the identification findings (a delivery ending exactly at
+# a banner line end - fixed in /repo; a version line split behind a banner line that mentions "SSH-"; a cleartext packet with a line
+# starting with "SSH-" in the delivery that completes the version line) so that mutant runs see past them.  Without it about 10% of the
+# runs that could meet such a precondition are allowed to.
 ALWAYS_AVOID = os.environ.get("VERIF_C35_AVOID", "0") == "1"
 
 
@@ -195,8 +198,8 @@ def run(sim):
     own_versions = sim.draw_bool(0.4, "own_version_strings")
     nnoise = sim.draw_weighted([(0, 5), (1, 3), (2, 2), (3, 1)], "early_noise")
     # the two knobs below keep most runs away from the preconditions of the version-line findings (see ident_verdict)
-    allow_marker_split = sim.draw_bool(0.1, "allow_marker_split") and not ALWAYS_AVOID
-    allow_marker_line_noise = sim.draw_bool(0.1, "allow_marker_line_noise") and not ALWAYS_AVOID
+    allow_marker_split = sim.draw_bool(0.9, "allow_marker_split") and not ALWAYS_AVOID
+    allow_marker_line_noise = sim.draw_bool(0.9, "allow_marker_line_noise") and not ALWAYS_AVOID
     sim.config = {"cipher": cipher.decode(), "mac": mac.decode(), "compression": comp.decode(), "family": family, "banner_lines": nbanner,
                   "avoid_banner_split": avoid_banner_split, "async_verify": h.async_verify, "early_send": early_send,
                   "segmentation": seg, "nsend": nsend, "banner_style": banner_style, "own_version_strings": own_versions,
@@ -555,7 +558,7 @@ def _brief(lst):
 
 
 # Sensitivity (tools/mutate.py C35 --sub src/twisted/conch/ssh/transport.py ..., run with VERIF_C35_AVOID=1 so that the
-# genuine banner-line finding does not answer for the mutant):
+# genuine identification findings do not answer for the mutant):
 MUTANTS = [
     "getPacket: incomingPacketSequence not incremented -> CAUGHT (payloads-delivered / payloads-before-tamper)",
     "makeMAC and verify both computed over packet[:-1] (last padding byte outside the MAC) -> CAUGHT (tampered-payload-not-dispatched / tamper-detected)",
@@ -563,4 +566,12 @@ MUTANTS = [
     "verify: compares only the first 8 MAC bytes -> CAUGHT (tamper-detected:mac / tampered-payload-not-dispatched)",
     "getPacket: decrypted first block not kept across deliveries (`self.first = first` removed) -> CAUGHT (payloads-delivered)",
     "_newKeys: messages queued during key exchange flushed in reverse order -> CAUGHT (payloads-delivered / reverse-direction-prefix)",
+    "dataReceived: leftover after the version line cut at the newline following the FIRST 'SSH-' of the buffer instead of after the line that "
+    "starts with it (seeded C35-r3) -> CAUGHT (version-exchange:client-after-ident; needs a banner line that mentions the marker mid-line)",
+    "dataReceived: leftover lines re-joined with b'' instead of b'\\n' -> CAUGHT (version-exchange:server-after-ident / key-exchange-completes; "
+    "needs packet bytes containing 0x0a in the delivery that completes the version line)",
+    "dataReceived: version line = first line CONTAINING 'SSH-' -> CAUGHT (version-exchange:client-after-ident / other)",
+    "dataReceived: otherVersionString cut at the first space (comment dropped) -> CAUGHT (version-exchange:*-after-ident; needs own version strings with a comment)",
+    "dataReceived: protocol version taken from the second-to-last '-' field -> CAUGHT (version-exchange:*-after-ident; needs '-' in software version/comment)",
+    "dataReceived: leftover .lstrip()ped -> not caught, equivalent (the leftover starts with the 0x00 of a packet length)",
 ]
